@@ -249,3 +249,23 @@ Record gelem := mkGelem { g_name : String.string; g_dim : nat; g_refp : list (li
                           g_got : list gdof_entry; g_want : list gdof_entry; g_doflocs : list (list Q) }.
 Definition gdof_ok (g : gelem) : bool :=
   negb (Nat.eqb (length (g_got g)) 0) && gdofs_eqb (g_got g) (g_want g) && locs_eqb (g_dim g) (g_refp g) (g_want g) (g_doflocs g).
+
+(* ---- polynomial cell maps F (one polynomial per space coordinate, in the reference coordinates and the node
+   coordinates as further variables): Jacobian, adjugate and the Piola identity  sum_k d_k adj(J)_(k,i) = 0 ---- *)
+Definition jac (F : list poly) (i j : nat) : poly := pderiv j (nthp F i).
+Definition minor3 (F : list poly) (r1 r2 c1 c2 : nat) : poly :=
+  psub (pmuln (jac F r1 c1) (jac F r2 c2)) (pmuln (jac F r1 c2) (jac F r2 c1)).
+Definition others (i : nat) : nat * nat := match i with 0%nat => (1, 2)%nat | 1%nat => (0, 2)%nat | _ => (0, 1)%nat end.
+(* adj k i = cofactor (i, k):  adj J = det I *)
+Definition adjp (d : nat) (F : list poly) (k i : nat) : poly :=
+  if Nat.eqb d 2 then
+    match k, i with
+    | 0%nat, 0%nat => jac F 1 1 | 0%nat, _ => popp (jac F 0 1)
+    | _, 0%nat => popp (jac F 1 0) | _, _ => jac F 0 0
+    end
+  else
+    let '(r1, r2) := others i in let '(c1, c2) := others k in
+    let m := minor3 F r1 r2 c1 c2 in if Nat.even (i + k) then m else popp m.
+Definition piola_identity_ok (d : nat) (F : list poly) : bool :=
+  Nat.eqb (length F) d && (Nat.eqb d 2 || Nat.eqb d 3) &&
+  forallb (fun i => pis_zero (psum (map (fun k => pderiv k (adjp d F k i)) (seq 0 d)))) (seq 0 d).
